@@ -8,7 +8,7 @@ from collections import Counter
 from . import enc_common as E
 import vlib
 
-THEOREM_FILES = ['C06']
+THEOREM_FILES = ['C06', 'C06b']
 ASSUMPTIONS = ['operand values are computed by the generator (literals, simple sums, .equ symbols); their evaluation is C05',
                'Rust String::as_bytes is UTF-8 (modelled by Model.utf8)']
 RANGES = {'db': (-128, 255), 'dw': (-32768, 65535), 'dd': (-2**31, 2**32 - 1), 'dq': (-2**63, 2**63 - 1)}
